@@ -36,6 +36,7 @@ type loopOpts struct {
 	unreadableP   float64 // share of map-less fans whose PWM file can never be read
 	rpmSideFaults bool    // third-party PWM writes and PWM read faults seen by the RPM monitor
 	stableAlgos   bool    // only algorithms documented to settle (direct, rate-limited, default PID)
+	freshP        float64 // share of hwmon fans with configured minimum and maximum that start without stored RPM curve (first start: analysis, then regulation)
 	dropoutP      float64 // share of saturating fans whose stored RPM curve has a tachometer drop-out (0 = 0.12)
 }
 
@@ -233,7 +234,31 @@ func genLoop(family string, seed uint64, tier string, o loopOpts) *world.Scenari
 				}
 			}
 		}
-		if kind == "hwmon" {
+		fresh := false
+		if fr := kernel.NewRand(seed, "loop.fresh."+f.ID); kind == "hwmon" && o.freshP > 0 && f.MinPwm != nil && f.MaxPwm != nil && f.StartPwm == nil && fr.Bool(o.freshP) {
+			// the very first start of this fan: nothing stored, the RPM curve is measured (in virtual time) before
+			// regulation begins; its limits are the configured ones whatever the measurement finds
+			fresh = true
+			f.Plant.Stalls = nil
+			steps := 256
+			switch {
+			case f.Driver.Quant == "" && f.PwmMap == nil && !o.identityOnly:
+				// (a quantising driver keeps most of these analyses short)
+				f.Driver.Quant, f.Driver.K = "mult", kernel.Pick(fr, 8, 16, 32)
+				f.Driver.InitPwm = world.Quantise(&f.Driver, f.Driver.InitPwm)
+				steps = 256 / f.Driver.K
+			case f.Driver.Quant == "mult":
+				steps = 256 / f.Driver.K
+			case f.Driver.Quant == "levels":
+				steps = len(f.Driver.Levels)
+			}
+			extra := sec(40 + float64(steps)*3 + float64(f.Plant.TauMs)/100)
+			sc.Horizon += extra
+			for j := range sc.Sensors[i].Prog.Steps {
+				sc.Sensors[i].Prog.Steps[j].T += extra // the temperature programme plays during regulation
+			}
+		}
+		if kind == "hwmon" && !fresh {
 			data := linearRpmCurve(curveStart, curveMaxEff, f.Plant.MaxRpm)
 			if dr := kernel.NewRand(seed, "loop.dropout."+f.ID); curveMaxEff < 250 && dr.Bool(max(o.dropoutP, 0.12)) {
 				// the stored RPM curve has a tachometer drop-out on its plateau: one sample above the PWM that
@@ -492,6 +517,9 @@ func (o *loopOracle) onCycle(c *Cycle) {
 	}
 	lf.cycles++
 	res := o.res
+	if lf.cycles == 1 && lf.spec.Kind == "hwmon" && seededCurve(o.st.Sc, c.Fan) == nil {
+		res.Probe("first-start-fans-regulating(no stored RPM curve)")
+	}
 	// the request is observable when the fan reads back what was written through an identity map
 	observable := lf.identity && lf.spec.Driver.Quant == "" && !lf.spec.Driver.IgnoreWrites
 	faulty := false
@@ -769,14 +797,14 @@ func runLoop(props ...string) func(t *testing.T, sc *world.Scenario) *check.Resu
 
 func init() {
 	register(&Family{Name: "c01", Run: runLoop("C01", "C12"), Gen: func(seed uint64, tier string) *world.Scenario {
-		return genLoop("c01", seed, tier, loopOpts{kinds: []string{"hwmon", "hwmon", "hwmon", "file"}, neverStopP: 0.5, stallP: 0.3, absurdTemps: true, faultP: 0.4, horizonLo: 15, horizonHi: 45})
+		return genLoop("c01", seed, tier, loopOpts{kinds: []string{"hwmon", "hwmon", "hwmon", "file"}, neverStopP: 0.5, stallP: 0.3, absurdTemps: true, faultP: 0.4, horizonLo: 15, horizonHi: 45, freshP: 0.25})
 	}})
 	register(&Family{Name: "c01cmd", Run: runLoop("C01", "C12"), Gen: func(seed uint64, tier string) *world.Scenario {
 		return genLoop("c01cmd", seed, tier, loopOpts{kinds: []string{"cmd"}, maxFans: 1, neverStopP: 0.5, stallP: 0.3, absurdTemps: true, horizonLo: 10, horizonHi: 16})
 	}})
 	register(&Family{Name: "c01driven", Run: runC01Driven, Gen: genC01Driven})
 	register(&Family{Name: "c02", Run: runLoop("C02"), Gen: func(seed uint64, tier string) *world.Scenario {
-		return genLoop("c02", seed, tier, loopOpts{kinds: []string{"hwmon", "hwmon", "file"}, neverStopP: 1, stallP: 0.7, neverSpinP: 0.15, identityOnly: true, horizonLo: 30, horizonHi: 90, rpmWin: []int{1, 2, 5}, unreadableP: 0.25})
+		return genLoop("c02", seed, tier, loopOpts{kinds: []string{"hwmon", "hwmon", "file"}, neverStopP: 1, stallP: 0.7, neverSpinP: 0.15, identityOnly: true, horizonLo: 30, horizonHi: 90, rpmWin: []int{1, 2, 5}, unreadableP: 0.25, freshP: 0.35})
 	}})
 	register(&Family{Name: "c02side", Run: runLoop("C02"), Gen: func(seed uint64, tier string) *world.Scenario {
 		return genLoop("c02side", seed, tier, loopOpts{kinds: []string{"hwmon", "hwmon", "file"}, neverStopP: 1, stallP: 0.5, neverSpinP: 0.05, identityOnly: true, horizonLo: 20, horizonHi: 50, rpmWin: []int{1, 2, 5}, rpmSideFaults: true})
